@@ -89,6 +89,28 @@ proof! { #[kani::unwind(26)] fn c15_t_kernel_long_l1() { kernel(Side::Buy, 1, 3)
 proof! { #[kani::unwind(26)] fn c15_t_engine_long_trade() { engine(Side::Buy, 0, 3) } }
 proof! { #[kani::unwind(26)] fn c15_t_engine_short_l1() { engine(Side::Sell, 1, 3) } }
 
+// two instruments: the event's instrument is re-valued, the other instrument's position and market data are untouched
+fn engine_two(target: usize, event_kind: u8, bits: u32) {
+    let (pa, pb) = (any_position(Side::Buy, bits, 1), any_position(Side::Sell, bits, 1));
+    let (da, db) = (any_data(bits), any_data(bits));
+    let mut pb = pb;
+    pb.instrument = InstrumentIndex(1);
+    let a = instrument_state(0, instrument(0, "btc_usdt", 0, 1), PositionManager { current: Some(pa) }, Orders::default(), da);
+    let b = instrument_state(1, instrument(1, "eth_usdt", 2, 3), PositionManager { current: Some(pb) }, Orders::default(), db);
+    let mut state = engine_state(TradingState::Disabled, instrument_states_2(("btc_usdt", a), ("eth_usdt", b)));
+    let other_before = state.instruments.instrument_index(&InstrumentIndex(1 - target)).clone();
+    let event = any_event(event_kind, target, bits);
+    state.update_from_market(&event);
+    let after = state.instruments.instrument_index(&InstrumentIndex(target));
+    let priced = check_tracks(&after.position, &after.data);
+    let other_after = state.instruments.instrument_index(&InstrumentIndex(1 - target));
+    assert!(other_after.position == other_before.position && other_after.data == other_before.data, "C15: a market event changed another instrument");
+    kani::cover!(priced, "priced event with an open position");
+    core::mem::forget((state, event, other_before));
+}
+proof! { #[kani::unwind(26)] fn c15_q_engine_two_instruments_second() { engine_two(1, 0, 2) } }
+proof! { #[kani::unwind(26)] fn c15_t_engine_two_instruments_first_l1() { engine_two(0, 1, 2) } }
+
 // after a fill the value equals the estimate at the fill price (until newer market data arrives).
 // arm: 0 = any, 1 = fill smaller than the position, 2 = equal, 3 = larger (flip)
 fn after_fill(pre_side: Option<Side>, fill_side: Side, arm: u8, bits: u32) {
